@@ -689,6 +689,150 @@ def run_matrix(kind, order_seed, scratch, only=None):
     return v, m, n, cells
 
 
+# ---------------------------------------------------------------------------
+# concurrent requests (the server answers each request on its own thread)
+
+THREAD_TRACED = tuple(os.path.join('bert_e', *p) for p in (
+    ('server', 'api', 'base.py'), ('server', 'api', 'pull_requests.py'),
+    ('server', 'api', 'gwf', 'branches.py'),
+    ('server', 'api', 'gwf', 'queues.py'), ('server', 'auth.py'),
+    ('bert_e.py',), ('job.py',)))
+
+
+THREAD_BAD_BRANCHES = ['development/4.3.1', 'dev/4.3', 'feature/foo',
+                       'q/4.3', 'stabilization/5.1', 'release/4.3']
+
+
+def gen_thread_case(rng):
+    """2-3 simultaneous API requests, each with its own session, URL
+    parameters and body; some ill-formed, some lacking the rights."""
+    eps = ['EvalPullRequest', 'EvalPullRequest', 'CreateBranch',
+           'DeleteBranch', 'RebuildQueues', 'ForceMergeQueues']
+    reqs = []
+    # mostly the same endpoint class for all (shared view state, if any)
+    same = rng.choice(eps)
+    for i in range(rng.choice([2, 2, 3])):
+        ep = same if rng.random() < 0.8 else rng.choice(eps)
+        r = {'ep': ep, 'sess': rng.choice(['user', 'admin', 'admin',
+                                           'none']),
+             'user': rng.choice(['alice', 'bob']) if i % 2 else 'alice'}
+        if ep == 'EvalPullRequest':
+            r['pr_id'] = rng.choice([0, -3, 'abc']) if rng.random() < 0.25 \
+                else 100 + 10 * i + rng.randrange(9)
+        elif ep in ('CreateBranch', 'DeleteBranch'):
+            r['branch'] = rng.choice(THREAD_BAD_BRANCHES) \
+                if rng.random() < 0.25 \
+                else 'development/%d.%d' % (20 + i, rng.randrange(9))
+            if ep == 'CreateBranch' and rng.random() < 0.5:
+                r['branch_from'] = rng.choice(GOOD_FROM[1:] + BAD_FROM[:1])
+        reqs.append(r)
+    plan = {}
+    for k in range(rng.choice([0, 1, 2, 3, 4])):
+        plan[rng.randrange(1, 160)] = rng.randrange(3)
+    return {'reqs': reqs, 'plan': sorted(plan.items()),
+            'prios': [rng.random() for r in reqs]}
+
+
+def run_thread_case(kind, case, scratch):
+    from bert_e.server.api import ENDPOINTS
+    from ..e2_threads import Sched
+    app, berte, host = make_app(kind, scratch)
+    q = berte.task_queue
+    q.queue.clear()
+    sched = Sched(dict((int(k), v) for k, v in case['plan']),
+                  max_steps=20000, traced=THREAD_TRACED)
+    answers = [None] * len(case['reqs'])
+    clients = []
+    for r in case['reqs']:
+        c = app.test_client()
+        if r['sess'] != 'none':
+            user = 'root' if r['sess'] == 'admin' else r['user']
+            with c.session_transaction() as s:
+                s['user'] = user
+                s['admin'] = user in berte.settings.admins
+        clients.append(c)
+
+    def body(i, r, c):
+        def fn():
+            ep = [e for e in ENDPOINTS if e.__name__ == r['ep']][0]
+            url = '/api' + ep.rule
+            if 'pr_id' in r:
+                url = url.replace('<int:pr_id>', str(r['pr_id']))
+            if 'branch' in r:
+                url = url.replace('<path:branch>', r['branch'])
+            body = {}
+            if r.get('branch_from'):
+                body['branch_from'] = r['branch_from']
+            try:
+                resp = c.open(url, method=ep.method, json=body,
+                              headers={'Accept': 'application/json'})
+                answers[i] = resp.status_code
+            except Exception as err:
+                answers[i] = 500
+        return fn
+    for i, (r, c) in enumerate(zip(case['reqs'], clients)):
+        sched.add('req%d' % i, case['prios'][i], body(i, r, c))
+    sched.run()
+    jobs = list(q.queue)
+    q.queue.clear()
+    info = {'steps': sched.step, 'fired': len(sched.fired),
+            'schedule': digest(sched.log)}
+    for t in sched.threads:
+        if t.error is not None:
+            return Violation('C14', 'C14:request-thread-error',
+                             'request thread raised %r' % (t.error,),
+                             {}), info
+    # what the accepted requests, each taken alone, must have enqueued
+    want = []
+    for i, r in enumerate(case['reqs']):
+        ep = [e for e in ENDPOINTS if e.__name__ == r['ep']][0]
+        ok_sess = r['sess'] == 'admin' or (
+            r['sess'] == 'user' and r['ep'] not in ADMIN_ENDPOINTS)
+        ok_par = True
+        if 'pr_id' in r:
+            ok_par = isinstance(r['pr_id'], int) and r['pr_id'] >= 1
+        if 'branch' in r:
+            ok_par = r['branch'] not in BAD_BRANCHES and \
+                r.get('branch_from') not in BAD_FROM
+        allowed = ok_sess and ok_par
+        code = answers[i]
+        if not allowed:
+            if code is None or code < 400:
+                return Violation(
+                    'C14', 'C14:concurrent:refusal-without-error-status',
+                    'request %d (%s) must be refused, answered %s' % (
+                        i, r, code), {}), info
+            continue
+        if code is None or code >= 300:
+            return Violation(
+                'C14', 'C14:concurrent:allowed-request-refused',
+                'request %d (%s) must be accepted, answered %s' % (
+                    i, r, code), {}), info
+        exp = {}
+        if 'pr_id' in r:
+            exp['pr_id'] = r['pr_id']
+        if 'branch' in r:
+            exp['branch'] = r['branch']
+            if r['ep'] == 'CreateBranch' and r.get('branch_from'):
+                exp['branch_from'] = r['branch_from']
+        user = 'root' if r['sess'] == 'admin' else r['user']
+        want.append((ep.job.__name__, sorted(exp.items()), user))
+    got = []
+    for j in jobs:
+        st = dict(j.settings.maps[0])
+        if not st.get('branch_from'):
+            st.pop('branch_from', None)
+        got.append((type(j).__name__, sorted(st.items()), j.user))
+    # equal jobs are merged by put_job: compare as sets
+    if set(map(repr, got)) != set(map(repr, want)):
+        return Violation(
+            'C14', 'C14:concurrent:job-does-not-match-its-request',
+            'simultaneous requests %s were answered %s; the queue holds %s, '
+            'the accepted requests taken one by one say %s' % (
+                case['reqs'], answers, got, want), {}), info
+    return None, info
+
+
 class C14:
     ID = 'C14'
     ENGINE = 'e3'
@@ -722,14 +866,70 @@ class C14:
     def tasks(self, base_seed, tier):
         i = 0
         while True:
-            yield {'property': 'C14', 'tier': tier, 'mode': 'explore',
-                   'seed': derive_seed(base_seed, 'C14', 'e3', i),
-                   'name': 'C14#%d' % i, 'hang_s': 580,
-                   'kind': 'github' if i % 2 else 'bitbucket'}
+            if i % 4 == 3:
+                # simultaneous requests under the thread scheduler
+                yield {'property': 'C14', 'tier': tier, 'mode': 'explore',
+                       'seed': derive_seed(base_seed, 'C14', 'e3t', i),
+                       'name': 'C14#t%d' % i, 'hang_s': 580,
+                       'part': 'threads', 'batch': 150 if tier == 'quick'
+                       else 600, 'kind': 'github' if i % 8 == 7
+                       else 'bitbucket'}
+            else:
+                yield {'property': 'C14', 'tier': tier, 'mode': 'explore',
+                       'seed': derive_seed(base_seed, 'C14', 'e3', i),
+                       'name': 'C14#%d' % i, 'hang_s': 580,
+                       'kind': 'github' if i % 2 else 'bitbucket'}
             i += 1
+
+    def run_threads(self, task):
+        """A batch of concurrent-request cases under the baton scheduler."""
+        import random
+        kind = task.get('kind') or (task.get('config') or {}).get('kind')
+        stats = {'jobs': 0, 'ops': 0, 'faults': {}, 'probes': {}}
+        trace, viol, out = [], [], (None, [])
+        if task.get('mode') == 'replay':
+            cases = [task['ops'][0]]
+        else:
+            rng0 = random.Random(task['seed'])
+            cases = (gen_thread_case(random.Random(rng0.randrange(2 ** 48)))
+                     for i in range(task.get('batch', 150)))
+        runs = 0
+        nontrivial = set()
+        for case in cases:
+            v, info = run_thread_case(kind, case, task['scratch'])
+            runs += 1
+            stats['ops'] += len(case['reqs'])
+            if info['fired']:
+                stats['faults']['preempt'] = stats['faults'].get(
+                    'preempt', 0) + info['fired']
+                stats['probes']['concurrent-case-with-preemption'] = \
+                    stats['probes'].get(
+                        'concurrent-case-with-preemption', 0) + 1
+            stats['probes']['concurrent-case'] = stats['probes'].get(
+                'concurrent-case', 0) + 1
+            trace.append(digest([case, info['schedule']]))
+            nontrivial.add(info['schedule'])
+            if v is not None:
+                viol.append(v.as_dict())
+                out = ({'kind': kind, 'part': 'threads'}, [case])
+                break
+        res = {'property': 'C14', 'seed': task['seed'],
+               'config': out[0] or {'kind': kind, 'part': 'threads'},
+               'ops': out[1], 'violations': viol, 'stats': stats,
+               'runs': runs, 'states': [], 'transitions': [],
+               'nontrivial_digests': sorted(nontrivial),
+               'nontrivial_runs': runs,
+               'trace_digest': digest(trace), 'sim_seconds': 0,
+               'extra': {}, 'samples': []}
+        if task.get('want_trace'):
+            res['trace'] = trace
+        return res
 
     def run(self, task):
         kind = task.get('kind') or (task.get('config') or {}).get('kind')
+        if task.get('part') == 'threads' or \
+                (task.get('config') or {}).get('part') == 'threads':
+            return self.run_threads(task)
         only = task['ops'] if task.get('mode') == 'replay' else None
         v, m, n, cells = run_matrix(kind, task['seed'], task['scratch'],
                                     only)
